@@ -135,29 +135,38 @@ Lemma arom_is_int x y : is_int (arom_or_single x y).
 Proof. unfold arom_or_single. destruct (_ && _); eexists; reflexivity. Qed.
 
 (* ------------------------------------------------------------------------------------------------ closing a ring closure *)
+Lemma arom_at_ok s a : PI s -> 0 <= a < ps_n s -> exists tl ta, type_at s (ps_last s) = Ok tl /\ type_at s a = Ok ta /\
+  arom_at s a = Ok (arom_or_single tl ta).
+Proof.
+  intros HP Ha. unfold arom_at.
+  destruct (type_at_ok s (ps_last s) (pi_t s HP) (pi_n s HP) (pi_last s HP)) as [tl E1].
+  destruct (type_at_ok s a (pi_t s HP) (pi_n s HP) Ha) as [ta E2]. exists tl, ta. rewrite E1, E2. repeat split.
+Qed.
+
 Lemma close_bond_good strong s a ob :
   PI s -> 0 <= a < ps_n s -> obwf ob ->
   (match ps_prev s with Some (pt, _) => pt <> 4 | None => True end) ->
   GoodR (fun r => is_int (fst (fst (fst r)))) (close_bond strong s a ob).
 Proof.
   intros HP Ha Hob Hnd. pose proof (pi_prev s HP) as Hpv.
-  unfold close_bond, ISm.
+  destruct (arom_at_ok s a HP Ha) as [tl [ta [_ [_ EA]]]].
+  unfold close_bond, ISm. rewrite EA.
   destruct ob as [[obt obv]|]; destruct (ps_prev s) as [[bt b]|]; cbn [obwf prevwf] in *.
   - (* both *)
     destruct Hob as [[-> [oo ->]] | [-> [ob' ->]]]; destruct Hpv as [[-> [bo ->]] | [[-> [bb ->]] | ->]]; try contradiction;
-      cbn -[py_eq sb_set];
+      cbn -[py_eq sb_set arom_or_single];
       repeat match goal with
              | |- GoodR _ (if ?c then _ else _) => destruct c
              | |- GoodR _ (match (if ?c then _ else _) with _ => _ end) => destruct c
-             end; cbn; try reflexivity; try (eexists; reflexivity).
+             end; cbn -[arom_or_single]; try reflexivity; try (eexists; reflexivity); apply arom_is_int.
   - (* opened with a bond, closed without *)
-    destruct Hob as [[-> [oo ->]] | [-> [ob' ->]]]; cbn -[sb_set]; [destruct strong|]; cbn; try reflexivity; eexists; reflexivity.
+    destruct Hob as [[-> [oo ->]] | [-> [ob' ->]]]; cbn -[sb_set arom_or_single]; [destruct strong|]; cbn -[arom_or_single];
+      try reflexivity; try (eexists; reflexivity); apply arom_is_int.
   - (* closed with a bond *)
-    destruct Hpv as [[-> [bo ->]] | [[-> [bb ->]] | ->]]; try contradiction; cbn -[sb_set]; [destruct strong|]; cbn;
-      try reflexivity; eexists; reflexivity.
+    destruct Hpv as [[-> [bo ->]] | [[-> [bb ->]] | ->]]; try contradiction; cbn -[sb_set arom_or_single]; [destruct strong|];
+      cbn -[arom_or_single]; try reflexivity; try (eexists; reflexivity); apply arom_is_int.
   - (* no bond at all *)
-    destruct (type_at_ok s (ps_last s) (pi_t s HP) (pi_n s HP) (pi_last s HP)) as [tl ->].
-    destruct (type_at_ok s a (pi_t s HP) (pi_n s HP) Ha) as [ta ->]. cbn. apply arom_is_int.
+    cbn -[arom_or_single]. apply arom_is_int.
 Qed.
 
 (* ------------------------------------------------------------------------------------------------ one step *)
@@ -340,3 +349,366 @@ Proof.
     pose proof (first_atom strong ty a [0] Hty (or_intror eq_refl)) as G.
     destruct (step strong (set_last_stack p_init 0 [0]) (ty, PAtom a)) as [s1|e]; [|exact G]. apply Loop; assumption.
 Qed.
+
+(* ================================================================================================ the raises of the parser *)
+(* One lemma per `raise` of parser(): the guard fires exactly on the stated class of (state, token). *)
+
+(* 'not atom started' (both occurrences): the text must begin with an atom, or with '(' followed by an atom *)
+Lemma reject_not_atom_started ts :
+  guard ts = Ok tt <->
+  (exists t v r, ts = (t, v) :: r /\ t <> 2 /\ zmem t [0; 8] = true) \/
+  (exists v t2 v2 r, ts = (2, v) :: (t2, v2) :: r /\ zmem t2 [0; 8] = true).
+Proof.
+  unfold guard, ISm. destruct ts as [|[t v] r]; [split; [discriminate | intros [[? [? [? [H _]]]] | [? [? [? [? [H _]]]]]]; discriminate]|].
+  destruct (t =? 2) eqn:E.
+  - apply Z.eqb_eq in E. subst t. destruct r as [|[t2 v2] r2].
+    + split; [discriminate|]. intros [[? [? [? [H [N _]]]]] | [? [? [? [? [H _]]]]]]; inversion H; subst; contradiction.
+    + destruct (zmem t2 [0; 8]) eqn:E2.
+      * split; [intros _; right; exists v, t2, v2, r2; split; [reflexivity | exact E2] | reflexivity].
+      * split; [discriminate|].
+        intros [[? [? [? [H [N _]]]]] | [? [? [? [? [H Z2]]]]]]; inversion H; subst; [contradiction | rewrite Z2 in E2; discriminate].
+  - apply Z.eqb_neq in E. destruct (zmem t [0; 8]) eqn:E2.
+    + split; [intros _; left; exists t, v, r; repeat split; assumption | reflexivity].
+    + split; [discriminate|].
+      intros [[? [? [? [H [N Z2]]]]] | [? [? [? [? [H _]]]]]]; inversion H; subst; [rewrite Z2 in E2; discriminate | contradiction].
+Qed.
+
+(* 'bond before side chain': '(' after a pending bond that is not the dot *)
+Lemma reject_bond_before_branch strong s v :
+  step strong s (2, v) = Err IncorrectSmiles <-> exists pt pv, ps_prev s = Some (pt, pv) /\ pt <> 4.
+Proof.
+  unfold step, ISm. cbn [Z.eqb Pos.eqb]. destruct (ps_prev s) as [[pt pv]|].
+  - destruct (pt =? 4) eqn:E; cbn.
+    + split; [discriminate|]. intros [? [? [H N]]]. inversion H; subst. apply Z.eqb_eq in E. contradiction.
+    + split; [|reflexivity]. intros _. exists pt, pv. split; [reflexivity | apply Z.eqb_neq; exact E].
+  - split; [discriminate | intros [? [? [H _]]]; discriminate].
+Qed.
+
+(* 'bond before closure' and 'close chain more than open' *)
+Lemma reject_close_branch strong s v :
+  step strong s (3, v) = Err IncorrectSmiles <-> ps_prev s <> None \/ ps_stack s = [].
+Proof.
+  unfold step, ISm. cbn [Z.eqb Pos.eqb]. destruct (ps_prev s) as [p|].
+  - split; [intros _; left; discriminate | reflexivity].
+  - destruct (ps_stack s) as [|x r].
+    + split; [intros _; right; reflexivity | reflexivity].
+    + split; [discriminate | intros [H | H]; [contradiction | discriminate]].
+Qed.
+
+(* '2 bonds in a row' and 'started from bond' (bond tokens: 1 bond, 4 dot, 9 direction mark, 10 / 12 SMARTS bonds) *)
+Lemma reject_bond_token strong s ty v : zmem ty [1; 4; 9; 10; 12] = true ->
+  (step strong s (ty, v) = Err IncorrectSmiles <-> ps_prev s <> None \/ ps_atoms s = []) /\
+  (forall s', step strong s (ty, v) = Ok s' -> ps_prev s' = Some (ty, v) /\ ps_stack s' = ps_stack s /\ ps_cycles s' = ps_cycles s).
+Proof.
+  intros Hty. unfold step, ISm.
+  assert (E2 : (ty =? 2) = false /\ (ty =? 3) = false) by (zcontra; split; reflexivity).
+  destruct E2 as [-> ->]. rewrite Hty.
+  destruct (ps_prev s) as [p|]; [split; [split; [intros _; left; discriminate | reflexivity] | discriminate]|].
+  destruct (ps_atoms s) as [|a r]; [split; [split; [intros _; right; reflexivity | reflexivity] | discriminate]|].
+  split; [split; [discriminate | intros [H | H]; [contradiction | discriminate]]|].
+  intros s' H. inversion H; subst. cbn. repeat split; reflexivity.
+Qed.
+
+(* 'dot-cycle pattern invalid' *)
+Lemma reject_dot_closure strong s k pv : ps_prev s = Some (4, pv) -> step strong s (6, PInt k) = Err IncorrectSmiles.
+Proof. intros H. unfold step. cbn [Z.eqb Pos.eqb zmem existsb orb]. rewrite H. reflexivity. Qed.
+
+(* 'not equal cycle bonds', strong mode: the closure was opened with a bond symbol and is closed without one (C=1CC1), or
+   opened without and closed with one (C1CC=1); direction marks excepted *)
+Lemma reject_closure_bond_strong s a obt obv :
+  ps_prev s = None -> obt <> 9 -> close_bond true s a (Some (obt, obv)) = Err IncorrectSmiles.
+Proof. intros H N. unfold close_bond. rewrite H. apply Z.eqb_neq in N. rewrite N. reflexivity. Qed.
+Lemma reject_closure_bond_strong' s a bt b :
+  ps_prev s = Some (bt, b) -> bt <> 9 -> close_bond true s a None = Err IncorrectSmiles.
+Proof. intros H N. unfold close_bond. rewrite H. apply Z.eqb_neq in N. rewrite N. reflexivity. Qed.
+(* 'not equal cycle bonds', both modes: two different explicit bond symbols (C=1CC#1) *)
+Lemma reject_closure_bond_mismatch strong s a o1 o2 :
+  ps_prev s = Some (1, PInt o2) -> o1 <> o2 -> close_bond strong s a (Some (1, PInt o1)) = Err IncorrectSmiles.
+Proof.
+  intros H N. unfold close_bond. rewrite H. cbn. assert (E : (o2 =? o1) = false) by (apply Z.eqb_neq; congruence).
+  rewrite E. reflexivity.
+Qed.
+(* ... and a direction mark against a bond symbol other than '-' (C=1CC/1, C/1CC=1) *)
+Lemma reject_closure_direction_vs_bond strong s a o b : o <> 1 ->
+  (ps_prev s = Some (9, PBool b) -> close_bond strong s a (Some (1, PInt o)) = Err IncorrectSmiles) /\
+  (ps_prev s = Some (1, PInt o) -> close_bond strong s a (Some (9, PBool b)) = Err IncorrectSmiles).
+Proof.
+  intros N. assert (E : (o =? 1) = false) by (apply Z.eqb_neq; exact N).
+  split; intros H; unfold close_bond; rewrite H; cbn; rewrite E; reflexivity.
+Qed.
+
+(* the three final checks: 'number of ( does not equal to number of )', 'cycle is not finished', 'bond on the end' *)
+Lemma reject_at_end s :
+  finish s = Err IncorrectSmiles <-> ps_stack s <> [] \/ ps_cycles s <> [] \/ ps_prev s <> None.
+Proof.
+  unfold finish, ISm. destruct (ps_stack s); [|split; [intros _; left; discriminate | reflexivity]].
+  destruct (ps_cycles s); [|split; [intros _; right; left; discriminate | reflexivity]].
+  destruct (ps_prev s); [split; [intros _; right; right; discriminate | reflexivity]|].
+  split; [discriminate | intros [H | [H | H]]; contradiction].
+Qed.
+
+(* ================================================================================================ implicit bond choice *)
+Lemma arom_or_single_spec x y : arom_or_single x y = if (x =? 8) && (y =? 8) then PInt 4 else PInt 1.
+Proof.
+  unfold arom_or_single. destruct (x =? 8) eqn:E1, (y =? 8) eqn:E2, (x =? y) eqn:E3; cbn; try reflexivity;
+    try apply Z.eqb_eq in E1; try apply Z.eqb_eq in E2; try apply Z.eqb_eq in E3; try apply Z.eqb_neq in E1; try apply Z.eqb_neq in E2;
+    try apply Z.eqb_neq in E3; subst; try lia; contradiction.
+Qed.
+
+(* an atom written directly after another atom (no bond symbol), or after a direction mark: the bond inserted is aromatic (4)
+   iff both tokens are aromatic atoms (type 8), else single (1) *)
+Theorem implicit_bond_chain strong s ty a s' :
+  ps_atoms s <> [] -> (ps_prev s = None \/ exists b, ps_prev s = Some (9, PBool b)) ->
+  In ty [0; 8] -> step strong s (ty, PAtom a) = Ok s' ->
+  exists tl, type_at s (ps_last s) = Ok tl /\
+             ps_bonds s' = ps_bonds s ++ [(ps_n s, ps_last s, if (ty =? 8) && (tl =? 8) then PInt 4 else PInt 1)].
+Proof.
+  intros Hne Hpv Hty H. unfold step in H.
+  assert (E1 : (ty =? 2) = false /\ (ty =? 3) = false /\ zmem ty [1; 4; 9; 10; 12] = false /\ (ty =? 6) = false).
+  { cbn in Hty. destruct Hty as [<- | [<- | []]]; repeat split; reflexivity. }
+  destruct E1 as [E1 [E2 [E3 E4]]]. rewrite E1, E2, E3, E4 in H.
+  destruct (ps_atoms s) as [|a0 ar] eqn:Eat; [contradiction|].
+  destruct Hpv as [Hpv | [b Hpv]]; rewrite Hpv in H; cbn -[sb_set] in H;
+    destruct (type_at s (ps_last s)) as [tl|e]; try discriminate; cbn -[sb_set] in H; inversion H; subst; cbn;
+    exists tl; (split; [reflexivity|]); rewrite arom_or_single_spec; reflexivity.
+Qed.
+
+(* an unmarked ring closure, or one carrying only direction marks (at either or both ends): same choice between the two
+   atoms it joins *)
+Theorem implicit_bond_closure strong s a ob r :
+  (ps_prev s = None \/ exists b, ps_prev s = Some (9, PBool b)) -> (ob = None \/ exists b, ob = Some (9, PBool b)) ->
+  close_bond strong s a ob = Ok r ->
+  exists tl ta, type_at s (ps_last s) = Ok tl /\ type_at s a = Ok ta /\
+                fst (fst (fst r)) = if (tl =? 8) && (ta =? 8) then PInt 4 else PInt 1.
+Proof.
+  intros Hpv Hob H. unfold close_bond, arom_at in H.
+  destruct (type_at s (ps_last s)) as [tl|e] eqn:E1.
+  2:{ destruct Hpv as [Hpv | [b Hpv]]; destruct Hob as [-> | [b' ->]]; rewrite Hpv in H; cbn in H; discriminate. }
+  destruct (type_at s a) as [ta|e] eqn:E2.
+  2:{ destruct Hpv as [Hpv | [b Hpv]]; destruct Hob as [-> | [b' ->]]; rewrite Hpv in H; cbn in H; discriminate. }
+  exists tl, ta. split; [reflexivity|]. split; [reflexivity|]. rewrite <- arom_or_single_spec.
+  destruct Hpv as [Hpv | [b Hpv]]; destruct Hob as [-> | [b' ->]]; rewrite Hpv in H; cbn -[arom_or_single sb_set] in H;
+    inversion H; subst; reflexivity.
+Qed.
+
+(* an explicit bond symbol is taken as written *)
+Theorem explicit_bond_chain strong s ty a o s' :
+  ps_atoms s <> [] -> ps_prev s = Some (1, PInt o) -> In ty [0; 8] -> step strong s (ty, PAtom a) = Ok s' ->
+  ps_bonds s' = ps_bonds s ++ [(ps_n s, ps_last s, PInt o)].
+Proof.
+  intros Hne Hpv Hty H. unfold step in H.
+  assert (E1 : (ty =? 2) = false /\ (ty =? 3) = false /\ zmem ty [1; 4; 9; 10; 12] = false /\ (ty =? 6) = false).
+  { cbn in Hty. destruct Hty as [<- | [<- | []]]; repeat split; reflexivity. }
+  destruct E1 as [E1 [E2 [E3 E4]]]. rewrite E1, E2, E3, E4 in H.
+  destruct (ps_atoms s) as [|a0 ar] eqn:Eat; [contradiction|]. rewrite Hpv in H. cbn in H. inversion H; subst. reflexivity.
+Qed.
+
+(* the dot joins nothing *)
+Theorem dot_no_bond strong s ty a pv s' :
+  ps_atoms s <> [] -> ps_prev s = Some (4, pv) -> In ty [0; 8] -> step strong s (ty, PAtom a) = Ok s' -> ps_bonds s' = ps_bonds s.
+Proof.
+  intros Hne Hpv Hty H. unfold step in H.
+  assert (E1 : (ty =? 2) = false /\ (ty =? 3) = false /\ zmem ty [1; 4; 9; 10; 12] = false /\ (ty =? 6) = false).
+  { cbn in Hty. destruct Hty as [<- | [<- | []]]; repeat split; reflexivity. }
+  destruct E1 as [E1 [E2 [E3 E4]]]. rewrite E1, E2, E3, E4 in H.
+  destruct (ps_atoms s) as [|a0 ar] eqn:Eat; [contradiction|]. rewrite Hpv in H. cbn in H. inversion H; subst. reflexivity.
+Qed.
+
+(* ================================================================================================ input-level rejection *)
+(* what one step does to the branch stack and to `previous` *)
+Lemma step_stack strong s ty v s' : step strong s (ty, v) = Ok s' ->
+  ps_stack s' = (if ty =? 2 then ps_last s :: ps_stack s else if ty =? 3 then tl (ps_stack s) else ps_stack s) /\
+  (ty =? 3 = true -> ps_stack s <> []) /\
+  (zmem ty [1; 4; 9; 10; 12] = true -> ps_prev s = None /\ ps_prev s' = Some (ty, v)).
+Proof.
+  unfold step, ISm. intros H.
+  destruct (ty =? 2) eqn:E2.
+  { apply Z.eqb_eq in E2. subst ty. cbn [Z.eqb Pos.eqb zmem existsb orb].
+    destruct (ps_prev s) as [[pt pv]|]; [destruct (negb (pt =? 4)); [discriminate|]|]; inversion H; subst; cbn;
+      (split; [reflexivity | split; [discriminate | discriminate]]). }
+  destruct (ty =? 3) eqn:E3.
+  { apply Z.eqb_eq in E3. subst ty. cbn [Z.eqb Pos.eqb zmem existsb orb].
+    destruct (ps_prev s); [discriminate|]. destruct (ps_stack s) as [|x r]; [discriminate|]. inversion H; subst; cbn.
+    split; [reflexivity | split; [discriminate | discriminate]]. }
+  destruct (zmem ty [1; 4; 9; 10; 12]) eqn:Eb.
+  { destruct (ps_prev s); [discriminate|]. destruct (ps_atoms s); [discriminate|]. inversion H; subst; cbn.
+    split; [reflexivity | split; [discriminate | intros _; split; reflexivity]]. }
+  assert (K : ps_stack s' = ps_stack s); [|split; [exact K | split; discriminate]].
+  destruct (ty =? 6).
+  - destruct (match ps_prev s with Some (pt, _) => pt =? 4 | None => false end); [discriminate|].
+    destruct v; try discriminate. destruct (zget (ps_cycles s) z) as [[[a ob] ind]|].
+    + destruct (close_bond strong s a ob) as [[[[b sb] lg] x]|]; [|discriminate].
+      destruct (od_set (ps_order s) a ind (Some (ps_last s))); [|discriminate]. inversion H; subst. reflexivity.
+    + inversion H; subst. reflexivity.
+  - match type of H with match ?X with _ => _ end = _ => destruct X as [[[bonds order] sb]|]; [|discriminate] end.
+    destruct v; try discriminate. inversion H; subst. reflexivity.
+Qed.
+
+Lemma loop_app strong a : forall s b,
+  loop strong s (a ++ b) = match loop strong s a with Ok s1 => loop strong s1 b | Err e => Err e end.
+Proof.
+  induction a as [|t r IH]; intros s b; cbn [loop app]; [reflexivity|].
+  destruct (step strong s t); [apply IH | reflexivity].
+Qed.
+
+(* nesting depth of '(' / ')' along the tokens: None as soon as a ')' has no partner *)
+Fixpoint depth_run (d : nat) (ts : list token) : option nat :=
+  match ts with
+  | [] => Some d
+  | (ty, _) :: r => if ty =? 2 then depth_run (S d) r
+                    else if ty =? 3 then match d with O => None | S d' => depth_run d' r end
+                    else depth_run d r
+  end.
+
+Lemma loop_depth strong ts : forall s s', loop strong s ts = Ok s' ->
+  depth_run (List.length (ps_stack s)) ts = Some (List.length (ps_stack s')).
+Proof.
+  induction ts as [|[ty v] r IH]; intros s s' H; cbn [loop depth_run] in *; [inversion H; reflexivity|].
+  destruct (step strong s (ty, v)) as [s1|e] eqn:E; [|discriminate].
+  destruct (step_stack strong s ty v s1 E) as [K1 [K2 _]]. specialize (IH s1 s' H).
+  destruct (ty =? 2); [rewrite K1 in IH; exact IH|].
+  destruct (ty =? 3).
+  - destruct (ps_stack s) as [|x st]; [exfalso; apply K2; reflexivity|]. rewrite K1 in IH. exact IH.
+  - rewrite K1 in IH. exact IH.
+Qed.
+
+(* 'number of ( does not equal to number of )' / 'close chain more than open': an accepted token list is balanced *)
+Theorem reject_unbalanced ts strong p : parse ts strong = Ok p -> depth_run 0 ts = Some 0%nat.
+Proof.
+  unfold parse. destruct (guard ts); [|discriminate]. destruct (loop strong p_init ts) as [s|e] eqn:E; [|discriminate].
+  intros F. pose proof (loop_depth strong ts p_init s E) as D. cbn in D. rewrite D.
+  unfold finish in F. destruct (ps_stack s); [reflexivity | discriminate].
+Qed.
+
+(* 'bond on the end': an accepted token list does not end with a bond symbol, a direction mark or a dot *)
+Theorem reject_dangling_bond ts ty v strong p : parse (ts ++ [(ty, v)]) strong = Ok p -> zmem ty [1; 4; 9; 10; 12] = false.
+Proof.
+  unfold parse. destruct (guard _); [|discriminate]. rewrite loop_app.
+  destruct (loop strong p_init ts) as [s|e]; [|discriminate]. cbn [loop].
+  destruct (step strong s (ty, v)) as [s1|e] eqn:E; [|discriminate]. intros F.
+  destruct (zmem ty [1; 4; 9; 10; 12]) eqn:Eb; [|reflexivity].
+  destruct (step_stack strong s ty v s1 E) as [_ [_ K]]. destruct (K Eb) as [_ K2].
+  unfold finish in F. rewrite K2 in F. destruct (ps_stack s1); [|discriminate]. destruct (ps_cycles s1); discriminate.
+Qed.
+
+(* '2 bonds in a row': no two adjacent bond symbols / direction marks / dots *)
+Theorem reject_two_bonds a t1 v1 t2 v2 b strong p : parse (a ++ (t1, v1) :: (t2, v2) :: b) strong = Ok p ->
+  zmem t1 [1; 4; 9; 10; 12] && zmem t2 [1; 4; 9; 10; 12] = false.
+Proof.
+  unfold parse. destruct (guard _); [|discriminate]. rewrite loop_app.
+  destruct (loop strong p_init a) as [s|e]; [|discriminate]. cbn [loop].
+  destruct (step strong s (t1, v1)) as [s1|e] eqn:E1; [|discriminate].
+  destruct (step strong s1 (t2, v2)) as [s2|e] eqn:E2; [|discriminate]. intros _.
+  destruct (zmem t1 [1; 4; 9; 10; 12]) eqn:B1; [|reflexivity]. destruct (zmem t2 [1; 4; 9; 10; 12]) eqn:B2; [|reflexivity].
+  destruct (step_stack strong s t1 v1 s1 E1) as [_ [_ K]]. destruct (K B1) as [_ K1].
+  destruct (step_stack strong s1 t2 v2 s2 E2) as [_ [_ K']]. destruct (K' B2) as [K2 _]. rewrite K1 in K2. discriminate.
+Qed.
+
+(* non-vacuity of the rejection theorems: texts that are balanced / well ended are accepted, the others are not *)
+Example reject_examples :
+  (exists p, parse [(0, PAtom (simple_atom "C")); (2, PNone); (1, PInt 2); (0, PAtom (simple_atom "O")); (3, PNone); (0, PAtom (simple_atom "C"))] true = Ok p) /\
+  parse [(0, PAtom (simple_atom "C")); (2, PNone); (0, PAtom (simple_atom "O"))] true = Err IncorrectSmiles /\
+  parse [(0, PAtom (simple_atom "C")); (3, PNone)] true = Err IncorrectSmiles /\
+  parse [(0, PAtom (simple_atom "C")); (1, PInt 2)] true = Err IncorrectSmiles /\
+  parse [(0, PAtom (simple_atom "C")); (1, PInt 2); (1, PInt 1); (0, PAtom (simple_atom "C"))] true = Err IncorrectSmiles /\
+  parse [(0, PAtom (simple_atom "C")); (6, PInt 1)] true = Err IncorrectSmiles.
+Proof. repeat split; try (eexists; vm_compute; reflexivity); vm_compute; reflexivity. Qed.
+
+(* ---- 'cycle is not finished': every ring-closure number is used an even number of times *)
+Definition is_open (s : pstate) (k : Z) : bool := match zget (ps_cycles s) k with Some _ => true | None => false end.
+Definition is_closure (t : token) (k : Z) : bool := match t with (ty, PInt j) => (ty =? 6) && (j =? k) | _ => false end.
+Fixpoint closure_parity (k : Z) (ts : list token) : bool :=
+  match ts with [] => false | t :: r => if is_closure t k then negb (closure_parity k r) else closure_parity k r end.
+
+Lemma zget_zdel_other {V} (d : list (Z * V)) k k' : k' <> k -> zget (zdel d k) k' = zget d k'.
+Proof.
+  intros N. induction d as [|[k0 v] r IH]; cbn; [reflexivity|]. destruct (k =? k0) eqn:E.
+  - apply Z.eqb_eq in E. subst k0. destruct (k' =? k) eqn:E2; [apply Z.eqb_eq in E2; contradiction | reflexivity].
+  - cbn. destruct (k' =? k0); [reflexivity | exact IH].
+Qed.
+
+Lemma zget_None_keys {V} (d : list (Z * V)) k : zget d k = None <-> ~ In k (keys d).
+Proof.
+  induction d as [|[k0 v] r IH]; cbn; [tauto|]. destruct (k =? k0) eqn:E.
+  - apply Z.eqb_eq in E. subst. split; [discriminate | intros H; exfalso; apply H; left; reflexivity].
+  - apply Z.eqb_neq in E. rewrite IH. split; [intros H [H1 | H1]; [congruence | contradiction] | tauto].
+Qed.
+
+Lemma zdel_keys {V} (d : list (Z * V)) k : NoDup (keys d) -> NoDup (keys (zdel d k)) /\ zget (zdel d k) k = None /\
+  (forall x, In x (keys (zdel d k)) -> In x (keys d)).
+Proof.
+  induction d as [|[k0 v] r IH]; intros H; cbn; [split; [constructor | split; [reflexivity | tauto]]|].
+  cbn in H. inversion H; subst. destruct (k =? k0) eqn:E.
+  - apply Z.eqb_eq in E. subst k0. split; [assumption|]. split; [apply zget_None_keys; assumption | intros x Hx; right; exact Hx].
+  - destruct (IH H3) as [I1 [I2 I3]]. cbn. rewrite E. split; [|split; [exact I2 | intros x [Hx | Hx]; [left; exact Hx | right; apply I3; exact Hx]]].
+    constructor; [intros Hin; apply H2; apply I3; exact Hin | exact I1].
+Qed.
+
+Lemma NoDup_snoc {A} (l : list A) x : NoDup l -> ~ In x l -> NoDup (l ++ [x]).
+Proof.
+  induction l as [|y r IH]; intros H N; cbn; [constructor; [intros [] | constructor]|].
+  inversion H; subst. constructor.
+  - intros Hin. apply in_app_or in Hin. destruct Hin as [Hin | [<- | []]]; [contradiction | apply N; left; reflexivity].
+  - apply IH; [assumption | intros Hin; apply N; right; exact Hin].
+Qed.
+
+Lemma step_cycles strong s t s' : step strong s t = Ok s' -> NoDup (keys (ps_cycles s)) ->
+  NoDup (keys (ps_cycles s')) /\ forall k, is_open s' k = if is_closure t k then negb (is_open s k) else is_open s k.
+Proof.
+  destruct t as [ty v]. unfold step, ISm, is_open. intros H ND.
+  assert (Same : ps_cycles s' = ps_cycles s -> (ty =? 6) = false ->
+                 NoDup (keys (ps_cycles s')) /\ forall k, (match zget (ps_cycles s') k with Some _ => true | None => false end) =
+                   if is_closure (ty, v) k then negb (match zget (ps_cycles s) k with Some _ => true | None => false end)
+                   else (match zget (ps_cycles s) k with Some _ => true | None => false end)).
+  { intros E E6. rewrite E. split; [exact ND|]. intros k. destruct v; cbn [is_closure]; try reflexivity. rewrite E6. reflexivity. }
+  destruct (ty =? 2) eqn:E2.
+  { apply Same; [|apply Z.eqb_eq in E2; subst; reflexivity].
+    destruct (ps_prev s) as [[pt pv]|]; [destruct (negb (pt =? 4)); [discriminate|]|]; inversion H; reflexivity. }
+  destruct (ty =? 3) eqn:E3.
+  { apply Same; [|apply Z.eqb_eq in E3; subst; reflexivity].
+    destruct (ps_prev s); [discriminate|]. destruct (ps_stack s); [discriminate|]. inversion H; reflexivity. }
+  destruct (zmem ty [1; 4; 9; 10; 12]) eqn:Eb.
+  { apply Same; [|destruct (ty =? 6) eqn:E6; [apply Z.eqb_eq in E6; subst; discriminate | reflexivity]].
+    destruct (ps_prev s); [discriminate|]. destruct (ps_atoms s); [discriminate|]. inversion H; reflexivity. }
+  destruct (ty =? 6) eqn:E6.
+  - destruct (match ps_prev s with Some (pt, _) => pt =? 4 | None => false end); [discriminate|].
+    destruct v; try discriminate. cbn [is_closure]. rewrite E6. cbn [andb].
+    destruct (zget (ps_cycles s) z) as [[[a ob] ind]|] eqn:Ez.
+    + destruct (close_bond strong s a ob) as [[[[b sb] lg] x]|]; [|discriminate].
+      destruct (od_set (ps_order s) a ind (Some (ps_last s))); [|discriminate]. inversion H; subst. cbn.
+      destruct (zdel_keys (ps_cycles s) z ND) as [D1 [D2 _]]. split; [exact D1|]. intros k.
+      destruct (z =? k) eqn:Ek.
+      * apply Z.eqb_eq in Ek. subst k. rewrite D2, Ez. reflexivity.
+      * apply Z.eqb_neq in Ek. rewrite zget_zdel_other; [|congruence]. reflexivity.
+    + inversion H; subst. cbn. split.
+      * unfold keys. rewrite map_app. cbn. apply NoDup_snoc; [exact ND | apply zget_None_keys; exact Ez].
+      * intros k. rewrite zget_app. destruct (z =? k) eqn:Ek.
+        -- apply Z.eqb_eq in Ek. subst k. rewrite Ez. cbn. rewrite Z.eqb_refl. reflexivity.
+        -- destruct (zget (ps_cycles s) k); [reflexivity|]. cbn. rewrite Z.eqb_sym, Ek. reflexivity.
+  - apply Same; [|reflexivity].
+    match type of H with match ?X with _ => _ end = _ => destruct X as [[[bonds order] sb]|]; [|discriminate] end.
+    destruct v; try discriminate. inversion H; reflexivity.
+Qed.
+
+Lemma loop_cycles strong ts : forall s s', loop strong s ts = Ok s' -> NoDup (keys (ps_cycles s)) ->
+  NoDup (keys (ps_cycles s')) /\ forall k, is_open s' k = if closure_parity k ts then negb (is_open s k) else is_open s k.
+Proof.
+  induction ts as [|t r IH]; intros s s' H ND; cbn [loop closure_parity] in *; [inversion H; subst; split; [exact ND | reflexivity]|].
+  destruct (step strong s t) as [s1|e] eqn:E; [|discriminate].
+  destruct (step_cycles strong s t s1 E ND) as [N1 O1]. destruct (IH s1 s' H N1) as [N2 O2]. split; [exact N2|].
+  intros k. rewrite O2, O1. destruct (is_closure t k), (closure_parity k r), (is_open s k); reflexivity.
+Qed.
+
+(* an accepted token list uses every ring-closure number an even number of times (each opening has its closing) *)
+Theorem reject_open_closure ts strong p : parse ts strong = Ok p -> forall k, closure_parity k ts = false.
+Proof.
+  unfold parse. destruct (guard ts); [|discriminate]. destruct (loop strong p_init ts) as [s|e] eqn:E; [|discriminate].
+  intros F k. destruct (loop_cycles strong ts p_init s E) as [_ O]; [constructor|]. specialize (O k).
+  unfold finish in F. destruct (ps_stack s); [|discriminate]. destruct (ps_cycles s) eqn:Ec; [|discriminate].
+  unfold is_open in O. rewrite Ec in O. cbn in O. destruct (closure_parity k ts); [discriminate | reflexivity].
+Qed.
+
+Lemma reject_closure_bond_strong_both s a :
+  (forall obt obv, ps_prev s = None -> obt <> 9 -> close_bond true s a (Some (obt, obv)) = Err IncorrectSmiles) /\
+  (forall bt b, ps_prev s = Some (bt, b) -> bt <> 9 -> close_bond true s a None = Err IncorrectSmiles).
+Proof. split; [exact (reject_closure_bond_strong s a) | exact (reject_closure_bond_strong' s a)]. Qed.
